@@ -642,9 +642,10 @@ class CompositeDataSource(DataSource):
         if not self.has_data_sources():
             raise AttributeError("CompositeDataSource has no data sources")
 
-        results = []
-        for ds in self.data_sources:
-            results.extend(ds.related_to(*args, **kwargs))
+        # The relationships and the objects they refer to may be held by
+        # different members: navigate the union (this source's own
+        # relationships() and query()), not each member on its own.
+        results = super(CompositeDataSource, self).related_to(*args, **kwargs)
 
         # remove exact duplicates (where duplicates are STIX 2.0
         # objects with the same 'id' and 'modified' values)
